@@ -9,6 +9,14 @@ if 'spec' not in rp:
 else:
     terms = c10.dec_terms(rp['terms'])
     msg, _ = c10.oracle(rp['spec'], terms, tuple(rp['shape']))
+    if not msg:
+        # purity: evaluating must leave every terminal array bit-identical
+        terms2 = c10.dec_terms(rp['terms'])
+        root = c10.build(rp['spec'], terms2)
+        keep = [t.copy() for t in terms2]
+        _ = root.position
+        if any(not c10.same_bits(a, b) for a, b in zip(keep, terms2)):
+            msg = 'evaluating modified a terminal array in place'
     if rp.get('key') == 'eps' and c10.c.EPSILON != c10.EPS:
         msg = msg or 'constants.EPSILON = %r, the documented protection constant is 1e-10' % (c10.c.EPSILON,)
     res.update({'oracle': msg, 'recorded': rp.get('msg'), 'fails': bool(msg)})
